@@ -81,3 +81,15 @@ func VerifH_C11_transform() {
 	verifrt.Reach("node")
 	verifWalk(n)
 }
+
+// VerifParsed / VerifParseFails: what the (redirected) YAML text parser returns to its caller - the text
+// parser itself (gopkg.in/yaml.v3) is below the cut line, the node tree it yields is the harness's choice.
+var VerifParsed Node
+var VerifParseFails bool
+
+func verifParse(p parser, data []byte) (Node, error) {
+	if VerifParseFails {
+		return nil, &verifrt.Err{Msg: "yaml: syntax error"}
+	}
+	return VerifParsed, nil
+}
